@@ -25,6 +25,8 @@ pub fn check(schema: &crate::fam::ExecSchema, mirror: &J) -> Vec<String> {
     for t in s["types"].as_array().cloned().unwrap_or_default() {
         let n = t["name"].as_str().unwrap_or("").to_string();
         if n.starts_with("__") || ["Int", "Float", "String", "Boolean", "ID"].contains(&n.as_str()) { continue; }
+        // input types only occur as argument types, which the mirror (output side of the type system) does not list
+        if t["kind"] == "INPUT_OBJECT" { continue; }
         seen.insert(n.clone());
         let m = &mirror["types"][&n];
         if m.is_null() { diffs.push(format!("type {n} missing in mirror")); continue; }
